@@ -652,14 +652,14 @@ def run(ctx):
     p_file, p_cont, p_stream = rparams[0], rparams[1], rparams[2]
     path_vars = {norm(s_.targets[0]) for s_ in walk_no_nested(rmf) if isinstance(s_, ast.Assign)
                  and norm(s_.value) == 'Path(%s)' % p_file}
+    path_vars.add('Path(%s)' % p_file)            # the path object read where it is used
     name_ok = any(isinstance(s_, ast.Assign) and norm(s_.targets[0]) == p_cont + '.name'
                   and isinstance(s_.value, ast.Attribute) and s_.value.attr == 'stem'
                   and norm(s_.value.value) in path_vars for s_ in walk_no_nested(rmf))
-    pick_ok = any(isinstance(s_, ast.Assign) and isinstance(s_.value, ast.IfExp)
-                  and norm(s_.value) == '%s if %s is None else %s' % (p_file, p_stream, p_stream)
+    pick_ok = any(isinstance(s_, ast.IfExp)
+                  and norm(s_) == '%s if %s is None else %s' % (p_file, p_stream, p_stream)
                   for s_ in walk_no_nested(rmf))
-    ext_ok = any(isinstance(s_, ast.Assign) and isinstance(s_.value, ast.Attribute)
-                 and s_.value.attr == 'suffix' and norm(s_.value.value) in path_vars
+    ext_ok = any(isinstance(s_, ast.Attribute) and s_.attr == 'suffix' and norm(s_.value) in path_vars
                  for s_ in walk_no_nested(rmf))
     ok = name_ok and pick_ok and ext_ok
     s_uses = [n for n in walk_no_nested(rmf) if isinstance(n, ast.Name) and n.id == p_stream
